@@ -364,7 +364,16 @@ func vGen(b *zcode.Builder, typ zed.Type, name string, nullable bool, leafMax in
 			return
 		}
 	default:
-		b.Append(vLeaf(name, leafMax, nullable))
+		leaf := vLeaf(name, leafMax, nullable)
+		if id := typ.ID(); zed.IsInteger(id) && len(leaf) > 0 {
+			// integers have one spelling: the counted varint drops trailing zero
+			// bytes (0 is the empty body).  Every writer produces it; a value with a
+			// padded spelling is a different byte string denoting the same number,
+			// and the dictionary (keyed by bytes, ordered by value) may
+			// legitimately return either.
+			verif.Assume(leaf[len(leaf)-1] != 0)
+		}
+		b.Append(leaf)
 		return
 	}
 	b.BeginContainer()
